@@ -144,7 +144,10 @@ class JnpSqrtPlugin(PrimitiveLeafPlugin):
         input_producer = (
             input_producer_getter() if callable(input_producer_getter) else None
         )
-        if getattr(input_producer, "op_type", "") == "ReduceSumSquare":
+        if (
+            getattr(input_producer, "op_type", "") == "ReduceSumSquare"
+            and (getattr(input_producer, "domain", "") or "") == ""
+        ):
             reduce_inputs = list(getattr(input_producer, "inputs", ()))
             if reduce_inputs:
                 reduce_axes = reduction_axes_from_node(input_producer)
